@@ -98,7 +98,13 @@ def run_traced(fn, target: str, pkg_dir: str, fault_at: int | None = None, fault
             _EVENT_NO[0] += 1
             if fault_at is not None and _EVENT_NO[0] == fault_at:
                 FIRED[0] = True
-                raise fault_cls(f"injected at line event {fault_at}: {os.path.basename(frame.f_code.co_filename)}:{frame.f_lineno}")
+                cls = fault_cls
+                if issubclass(cls, StopIteration) and frame.f_code.co_flags & 0x2A0:
+                    # inside a generator / coroutine frame a StopIteration raised by *code* becomes RuntimeError (PEP 479); one raised by a trace function
+                    # at a line event is not converted and simply ends the generator — an artefact of the injection, not a fault that can occur.  An
+                    # ordinary error is injected there instead.
+                    cls = InjectedFault
+                raise cls(f"injected at line event {fault_at}: {os.path.basename(frame.f_code.co_filename)}:{frame.f_lineno}")
         return local
 
     def tracer(frame, event, arg):
